@@ -119,7 +119,13 @@ def run_case(case):
                 e = [(f"f{f}_" + nm, s) for nm, s in e]
                 targets += e
                 p = d / f"in{rep}_{f}.fasta"
-                p.write_text(render(e, rng))
+                text = render(e, rng)
+                if (rep + f) % 3 == 2:
+                    # a database saved on Windows: CRLF line endings (multi-line records included)
+                    p.write_bytes(text.replace("\n", "\r\n").encode())
+                    res.count("crlf_inputs")
+                else:
+                    p.write_text(text)
                 paths.append(str(p))
             out = d / f"out{rep}.fasta"
             np.random.seed(int(rng.integers(0, 2**31)))
